@@ -84,6 +84,13 @@ def one(args):
 
 
 def sweep(ctx, pid, n, kgroups):
+    # 0. pattern tie between coq/Front/ItpRequest.v and src/api/Interpret.cc (which model variant describes the tree)
+    ff = itpcheck.front_facts()
+    if "error" in ff:
+        ctx.tie_broken("front-end-model:source-pattern", ff["error"])
+    else:
+        ctx.note("front end recognised in src/api/Interpret.cc: %s; get_assertion_index = first equal term; `assertions` never shrunk" % ff["variant"])
+        ctx.count("front-end-variant:%s" % ff["variant"])
     # 1. corpus (regression inputs, known findings) — sequentially
     for f in sorted(glob.glob(os.path.join(vlib.VERIF, "corpus", "C08", "*.smt2")) + glob.glob(os.path.join(vlib.VERIF, "corpus", "C09", "*.smt2"))):
         if pid == "C09" and "/C08/" in f and "path" not in os.path.basename(f):
